@@ -312,7 +312,30 @@ func mutate(t *rapid.T, root map[string]any) (string, []string) {
 			schemas = map[string]any{}
 			comps["schemas"] = schemas
 		}
-		switch rapid.IntRange(0, 3).Draw(t, "cycle_kind") {
+		switch rapid.IntRange(0, 5).Draw(t, "cycle_kind") {
+		case 4:
+			// an alias chain that runs into a cycle it is not part of (its name sorts first)
+			schemas["AaaTail"] = map[string]any{"$ref": "#/components/schemas/CycA"}
+			schemas["CycA"] = map[string]any{"$ref": "#/components/schemas/CycB"}
+			schemas["CycB"] = map[string]any{"$ref": "#/components/schemas/CycA"}
+			if s, ok := pick(byKey("schema")); ok && rapid.Bool().Draw(t, "use_tail") {
+				s.set(map[string]any{"$ref": "#/components/schemas/AaaTail"})
+			}
+			return "cyclic-ref:tail-into-cycle", []string{"components", "schemas", "AaaTail"}
+		case 5:
+			// alias cycles in the other components maps
+			section := rapid.SampledFrom([]string{"parameters", "headers", "responses", "requestBodies", "securitySchemes", "links", "examples"}).Draw(t, "cycle_section")
+			m, _ := comps[section].(map[string]any)
+			if m == nil {
+				m = map[string]any{}
+				comps[section] = m
+			}
+			m["CycA"] = map[string]any{"$ref": "#/components/" + section + "/CycB"}
+			m["CycB"] = map[string]any{"$ref": "#/components/" + section + "/CycA"}
+			if rapid.Bool().Draw(t, "cycle_tail") {
+				m["AaaTail"] = map[string]any{"$ref": "#/components/" + section + "/CycA"}
+			}
+			return "cyclic-ref:" + section, []string{"components", section, "CycA"}
 		case 0:
 			schemas["CycA"] = map[string]any{"$ref": "#/components/schemas/CycB"}
 			schemas["CycB"] = map[string]any{"$ref": "#/components/schemas/CycA"}
@@ -459,7 +482,9 @@ func mutate(t *rapid.T, root map[string]any) (string, []string) {
 		}
 		return "forward-array-component:" + target, []string{"components", "schemas", "AaList"}
 	case "servers":
-		root["servers"] = rapid.SampledFrom([]any{[]any{nil}, []any{map[string]any{"url": "/v1"}, nil}, []any{map[string]any{}}, []any{map[string]any{"url": nil}}, []any{map[string]any{"url": "{a}", "variables": map[string]any{"a": nil}}}}).Draw(t, "servers_val")
+		root["servers"] = rapid.SampledFrom([]any{[]any{nil}, []any{map[string]any{"url": "/v1"}, nil}, []any{map[string]any{}}, []any{map[string]any{"url": nil}}, []any{map[string]any{"url": "{a}", "variables": map[string]any{"a": nil}}},
+			[]any{map[string]any{"url": "https://h.example/v1", "variables": map[string]any{"unused": nil}}}, []any{map[string]any{"url": "https://h.example/{a}", "variables": map[string]any{"a": map[string]any{"default": "v1"}, "unused": map[string]any{"default": float64(3)}}}},
+			[]any{map[string]any{"url": "/v1"}, map[string]any{"url": "/{b}", "variables": map[string]any{"b": nil}}}}).Draw(t, "servers_val")
 		return "servers", []string{"servers"}
 	case "bad-type":
 		if s, ok := pick(byKey("type", "format")); ok {
